@@ -14,12 +14,13 @@ EXTENDS Vec, SequencesExt, FiniteSetsExt
 
 VARIABLES v_lvl, v_idx
 
-Modes == {"plain", "with", "only", "withonly", "withvar", "withvaronly", "withgo", "withgoonly"}     \* withvar: the hash is a variable of the host; withgo: a Go map[string]int handed in through the context
+Modes == {"plain", "with", "only", "withonly", "withvar", "withvaronly", "withgo", "withgoonly", "withptr", "withptronly"}     \* withvar: the hash is a variable of the host; withgo: a Go map[string]int handed in through the context
 Sites == {"top", "loop", "block", "macro"}
-HasWith(m) == m \in {"with", "withonly", "withvar", "withvaronly", "withgo", "withgoonly"}
+HasWith(m) == m \in {"with", "withonly", "withvar", "withvaronly", "withgo", "withgoonly", "withptr", "withptronly"}
 WithVar(m) == m \in {"withvar", "withvaronly"}
-IsOnly(m) == m \in {"only", "withonly", "withvaronly", "withgoonly"}
+IsOnly(m) == m \in {"only", "withonly", "withvaronly", "withgoonly", "withptronly"}
 WithGo(m) == m \in {"withgo", "withgoonly"}
+WithPtr(m) == m \in {"withptr", "withptronly"}          \* the same Go map behind a pointer: a hash like any other (it iterates, it has keys)
 OverSpecs == {<<>>, <<"p">>, <<"q">>, <<"p", "q">>, <<"pP">>, <<"pP", "qP">>, <<"pN">>, <<"pE", "q">>}
   \* xP = override calling parent(); pN = override of p whose body contains a nested block q (which overrides the target's q as well)
 OName(o) == SubSeq(o, 1, 1)
@@ -38,7 +39,7 @@ Configs ==
 
 WithHash == HashE(<< <<NameE("w"), IntE(3)>>, <<NameE("a"), IntE(9)>> >>)
 X(c, ov) ==
-  LET with == IF WithVar(c.mode) THEN NameE("wh") ELSE IF WithGo(c.mode) THEN NameE("gw") ELSE IF HasWith(c.mode) THEN WithHash ELSE NoE IN
+  LET with == IF WithVar(c.mode) THEN NameE("wh") ELSE IF WithGo(c.mode) THEN NameE("gw") ELSE IF WithPtr(c.mode) THEN NameE("gp") ELSE IF HasWith(c.mode) THEN WithHash ELSE NoE IN
   IF c.kind = "include" THEN IncludeS(StrE(c.target), with, IsOnly(c.mode))
   ELSE EmbedS(StrE(c.target), with, IsOnly(c.mode),
               [q \in 1..Len(ov) |-> [name |-> OName(ov[q]),
@@ -113,8 +114,8 @@ Init == GenInit(v_lvl, v_idx)
 Next == GenNext(v_lvl, v_idx, Picked, 32)
 Cur == Cases[v_idx]
 (* gw: the same hash as WithHash, as the specification sees it and as the Go value the harness hands in (a map[string]int) *)
-CtxRef == "gw" :> Hash(<< <<S2B("w"), IntV(3)>>, <<S2B("a"), IntV(9)>> >>)
-CtxGo == "gw" :> [t |-> "go", id |-> "map:si:w=3,a=9"]
+CtxRef == ("gw" :> Hash(<< <<S2B("w"), IntV(3)>>, <<S2B("a"), IntV(9)>> >>)) @@ ("gp" :> Hash(<< <<S2B("w"), IntV(3)>>, <<S2B("a"), IntV(9)>> >>))
+CtxGo == ("gw" :> [t |-> "go", id |-> "map:si:w=3,a=9"]) @@ ("gp" :> [t |-> "go", id |-> "ptr:map:si:w=3,a=9"])
 Ref == Execute(Templates(Cur), "h", CtxRef)
 Out == v_lvl < 2 \/ Emit([RenderVec("C10-" \o ToString(v_idx), Cur.kind, Templates(Cur), "h", CtxRef,
                                     [nt |-> Cur.hostp \/ Cur.target = "ts" \/ HasWith(Cur.mode)]) EXCEPT !.ctx = CtxGo])
